@@ -583,7 +583,11 @@ class Interp(object):
         if isinstance(v, dict):
             return list(v.keys())
         if isinstance(v, (list, tuple, set, frozenset, str, range)):
-            return sorted(v, key=str) if isinstance(v, (set, frozenset)) else list(v)
+            if isinstance(v, (set, frozenset)):
+                # a set has no order of its own: rules that care run the model twice, with the two opposite orders (set_order_reversed)
+                self.set_iterations = getattr(self, 'set_iterations', 0) + 1
+                return sorted(v, key=str, reverse=bool(getattr(self, 'set_order_reversed', False)))
+            return list(v)
         if isinstance(v, Sym) and v.name == 'dim':
             return list(range(self.cfg.decide(('value', 'dim'), [2, 1, 3])))
         raise Unsupported('iteration over %s' % key_of(v))
